@@ -254,6 +254,25 @@ RECURSIVE PickPos(_, _, _)
 PickPos(q, P, i) == IF i > Len(q) THEN <<>> ELSE (IF i \in P THEN <<q[i]>> ELSE <<>>) \o PickPos(q, P, i + 1)
 \* one StreamingPull request that acknowledges ids and sets a zero deadline on nids (the
 \* deliveries the stream's sender hands out before and after it are Pull steps of their own)
+\* one request with acknowledgements and nacks, one transaction (the HTTP pusher's shape)
+AckNack(snm, ids, nids) ==
+  LET X == SubsNamed(S, snm)
+      A == RangeOf(ids)
+      delA == [d \in DOMAIN S.del |->
+                IF d \in A /\ S.del[d].done = -1 THEN [S.del[d] EXCEPT !.done = S.now] ELSE S.del[d]]
+      I == RangeOf(nids)
+      live == {d \in I : delA[d].done = -1 /\ delA[d].exp > S.now}
+      D == {d \in live : DLable(S, d) /\ SubLive(S, d[2])}
+      e == [op |-> "AckNack", sub |-> snm, ids |-> ids, nids |-> nids,
+            bo |-> [i \in DOMAIN nids |-> MCBackoff(nids[i][2], S.del[nids[i]].att)]]
+      del1 == [d \in DOMAIN S.del |->
+                IF d \in live \ D THEN [delA[d] EXCEPT !.at = S.now + MCBackoff(d[2], S.del[d].att)]
+                ELSE delA[d]]
+      del2 == DeadLetter(del1, D)
+  IN IF X = {} THEN Fail(e, "NotFound")
+     ELSE /\ Cardinality(DOMAIN del2) <= MaxDels
+          /\ OK(e, [S EXCEPT !.del = del2, !.nd = @ + Cardinality(D)])
+
 \* fcb: the stream's max_outstanding_bytes (0 = practically unlimited); a small budget makes the
 \* stream's fetches skip messages that do not fit
 StreamAN(snm, ids, nids, fcb) ==
@@ -454,6 +473,8 @@ OpNext(op) ==
     [] op = "Ack" -> \E nm \in SubNames, q \in IdSeqs : Ack(nm, q)
     [] op = "ModAck" -> \E nm \in SubNames, q \in IdSeqs, x \in ModSecs : ModAck(nm, q, x)
     [] op = "Nack" -> \E q \in IdSeqs : Nack(q)
+    [] op = "AckNack" -> \E nm \in SubNames, q \in IdSeqs, P \in SUBSET (1..AckMax) :
+                           AckNack(nm, PickPos(q, P, 1), PickPos(q, (1..AckMax) \ P, 1))
     [] op = "StreamAN" -> \E nm \in SubNames, q \in IdSeqs, P \in SUBSET (1..AckMax), b \in (IF Depth > 0 THEN {0, 40, 70, 100} ELSE {0}) :
                             StreamAN(nm, PickPos(q, P, 1), PickPos(q, (1..AckMax) \ P, 1), b)
     [] op = "SeekTime" -> SeekAny
@@ -518,7 +539,8 @@ OneLivePerName ==
 \* C01: an outstanding delivery only disappears for one of the listed reasons
 Out(X, t) == {d \in Dels(X) : OutDef(X, d, t)}
 RetiredM(d) ==
-  \/ ev'.op \in {"Ack", "StreamAN"} /\ d \in RangeOf(ev'.ids)
+  \/ ev'.op \in {"Ack", "StreamAN", "AckNack"} /\ d \in RangeOf(ev'.ids)
+  \/ ev'.op = "AckNack" /\ d \in RangeOf(ev'.nids) /\ DLable(S, d)
   \/ ev'.op \in {"Pull", "Nack", "DLSweep"} /\ DLable(S, d)
   \/ ev'.op \in {"DeleteSub", "ExpireSubs"} /\ ~SubLive(S', d[2])
   \/ ev'.op \in {"SeekTime", "SeekSnap"} /\ SubsNamed(S, ev'.sub) = {d[2]}
